@@ -96,6 +96,7 @@ class Model:
         self.rand_vars = []
         self.all_constr = []
         self.var_ev_list = None
+        self.num_rule_vars = 0
         # self.affadapt_mat = None
 
         pr = self.pro_model.dvar(num_scen, name='probabilities')
@@ -196,6 +197,7 @@ class Model:
             count += dvar.size*len(dvar.event_adapt)
 
         num_scen = self.num_scen
+        self.num_rule_vars = len(self.dec_vars)
         self.var_ev_list = []
         for s in range(num_scen):
             start = 0
@@ -465,6 +467,14 @@ class Model:
                 return self.ro_model.do_math(False)
 
         self.ro_model.reset()
+        if (self.var_ev_list is not None and
+                len(self.dec_vars) > self.num_rule_vars):
+            # decision variables declared after the decision rules were
+            # laid out: the rules are laid out again from scratch
+            rc_model = self.ro_model.rc_model
+            del rc_model.vars[1:]
+            rc_model.last = rc_model.vars[0].last
+            self.var_ev_list = None
         self.rule_var()
 
         # Event-wise objective function
